@@ -298,6 +298,42 @@ pub fn script_of(case: &OpsCase, corp: &corpus::Corpus) -> Option<(String, Vec<S
 
 pub const SHARDS: usize = 16;
 
+/// A legal game of `plies` plies from the start position as a make-script: knight shuffles with a
+/// pawn move pair at the start of every 88-ply block.
+pub fn long_game_script(plies: usize) -> Vec<String> {
+    let start = Pos::startpos();
+    let mut game = Game::new(start.clone());
+    let cyc = ["g1f3", "g8f6", "f3g1", "f6g8", "b1c3", "b8c6", "c3b1", "c6b8"];
+    let pawns = ["a2a3", "a7a6", "b2b3", "b7b6", "c2c3", "c7c6", "d2d3", "d7d6", "e2e3", "e7e6", "f2f3", "f7f6", "g2g3", "g7g6", "h2h3", "h7h6", "a3a4", "a6a5", "b3b4", "b6b5", "c3c4", "c6c5", "d3d4", "d6d5", "e3e4", "e6e5", "h3h4", "h6h5"];
+    let mut script: Vec<String> = vec![];
+    let (mut i, mut pi) = (0usize, 0usize);
+    while script.len() < plies {
+        // a pawn move pair at the start of every 88-ply block (both sides, keeps the parity of the cycle)
+        let u = if i % 88 < 2 && pi < pawns.len() {
+            let u = pawns[pi];
+            pi += 1;
+            u
+        } else {
+            cyc[(i - 2 * (i / 88 + 1).min(pi / 2 + 1) + 8 * 100) % 8]
+        };
+        match game.cur.find_legal(u) {
+            Some(m) => {
+                game.play(m);
+                script.push(format!("make {u}"));
+            }
+            None => {
+                // out of step with the cycle: any legal knight or king move keeps the game going
+                let l = game.cur.legal_moves();
+                let m = l[(i * 7) % l.len()];
+                script.push(format!("make {}", m.uci()));
+                game.play(m);
+            }
+        }
+        i += 1;
+    }
+    script
+}
+
 pub fn run(ctx: &Ctx) -> Report {
     if ctx.shard.is_none() {
         let mut rep = run_sharded(ctx, SHARDS, SHARDS);
@@ -329,35 +365,7 @@ pub fn run(ctx: &Ctx) -> Report {
     if ctx.shard_index() == 1 || ctx.shard_index() == 2 {
         let plies = if ctx.shard_index() == 1 { 1100 } else { ctx.tier.pick(1300, 2300) };
         let start = Pos::startpos();
-        let mut game = Game::new(start.clone());
-        let cyc = ["g1f3", "g8f6", "f3g1", "f6g8", "b1c3", "b8c6", "c3b1", "c6b8"];
-        let pawns = ["a2a3", "a7a6", "b2b3", "b7b6", "c2c3", "c7c6", "d2d3", "d7d6", "e2e3", "e7e6", "f2f3", "f7f6", "g2g3", "g7g6", "h2h3", "h7h6", "a3a4", "a6a5", "b3b4", "b6b5", "c3c4", "c6c5", "d3d4", "d6d5", "e3e4", "e6e5", "h3h4", "h6h5"];
-        let mut script: Vec<String> = vec![];
-        let (mut i, mut pi) = (0usize, 0usize);
-        while script.len() < plies {
-            // a pawn move pair at the start of every 88-ply block (both sides, keeps the parity of the cycle)
-            let u = if i % 88 < 2 && pi < pawns.len() {
-                let u = pawns[pi];
-                pi += 1;
-                u
-            } else {
-                cyc[(i - 2 * (i / 88 + 1).min(pi / 2 + 1) + 8 * 100) % 8]
-            };
-            match game.cur.find_legal(u) {
-                Some(m) => {
-                    game.play(m);
-                    script.push(format!("make {u}"));
-                }
-                None => {
-                    // out of step with the cycle: any legal knight or king move keeps the game going
-                    let l = game.cur.legal_moves();
-                    let m = l[(i * 7) % l.len()];
-                    script.push(format!("make {}", m.uci()));
-                    game.play(m);
-                }
-            }
-            i += 1;
-        }
+        let mut script = long_game_script(plies);
         script.push("legal_moves".into());
         script.push("in_check".into());
         rep.class("shape:very-long-game(>1000 plies)");
